@@ -71,6 +71,9 @@ Closest(ev) ==
       failed == (IF C11_Members(s, ans) THEN {} ELSE {"C11_Members"})
                 \cup (IF C11_Sorted(ans, t) THEN {} ELSE {"C11_Sorted"})
                 \cup (IF prefix THEN {} ELSE {"C11_ClosestIsPrefix"})
+                \* "... and therefore in find_node, get_peers and get responses": a server holding this table answers each
+                \* request kind for this target with exactly the table's closest() answer
+                \cup (IF ev.served.find_node = ev.ans /\ ev.served.get_peers = ev.ans /\ ev.served.get = ev.ans THEN {} ELSE {"C11_ResponsesCarryClosest"})
       model == CodeClosest(s, t)
       conforms == [i \in 1..Len(model) |-> model[i].id] = [i \in 1..Len(ans) |-> ans[i].id]
   IN /\ IF failed # {} THEN Report(failed, [op |-> "closest", explained |-> OmissionExplained(s, ans, t), conforms_to_model |-> conforms])
